@@ -92,6 +92,18 @@ def run_case(case, rng):
     case.count("laostar_calls")
     if res is case.FAIL:
         return
+    if rng.random() < 0.25:
+        import copy
+        sib2 = copy.deepcopy(sp)
+        extra2 = [s for s in sib2.states if s not in sib2.flag]
+        if extra2:
+            sib2.flag = set(sib2.flag) | {rng.choice(extra2)}
+            it_backup = Probe.iters
+            warm["on"] = True
+            case.call("LAOStar.plan_on(sibling, afterwards)", planner.plan_on, Bd.build(sib2, rep))
+            warm["on"] = False
+            Probe.iters = it_backup
+            case.count("result_read_after_reuse")
     branches = bool(((arr.T > 0).sum(-1) >= 2).any() or (arr.avail.sum(-1) >= 2).any())
     case.nontrivial = Probe.iters >= 1 and branches
     case.sig(fam, len(arr.S), len(arr.A), gamma, tuple(sp.meta.get("abs_kinds", [])), hk, rao, rno,
